@@ -1,7 +1,7 @@
 """C23 - Server-sent tunnel and management frames are delivered once, in order."""
 
 from contracts.world import RecCallback, RecTransport
-from pyvc.api import Bytes, Const, Int, Obj, ghost, lemma
+from pyvc.api import Bytes, Choice, Const, Int, Obj, ghost, lemma
 from xknx.io.data_connection import IncomingSequenceCounter, SequenceVerdict
 from xknx.io.device_management import DeviceManagement
 from xknx.io.tunnel import UDPTunnel
@@ -153,3 +153,46 @@ def a_new_udp_connection_resets_the_incoming_counter(t, new_channel):
     tr = ghost("T")
     assert tr.count("incoming_reset") == 1
     assert tr.index("incoming_reset") < tr.index("connect_request")
+
+
+# ------------------------------------------------------------------ start() / stop() of the device management handler
+# device_management_request_step holds for any expected counter; which counter a connection has is decided by
+# start(): it may reset it only when it begins to listen (a new connection), never for a connection that is
+# already being served.
+
+
+class RegTransport(RecTransport):
+    """transport.register_callback / unregister_callback by contract: recorded; the handle identifies the registration."""
+
+    def register_callback(self, callback, service_types=None):
+        ghost("registered").append((callback, service_types))
+        return ("handle", len(ghost("registered")))
+
+    def unregister_callback(self, handle):
+        ghost("unregistered").append(handle)
+
+
+@lemma("C23", params=dict(e0=Int(0, 255), history=Choice("start", "start_start", "start_stop_start", "stop")))
+def start_resets_the_counter_only_when_it_begins_to_listen(e0, history):
+    """DeviceManagement.start()/stop() on the real object: the first start() registers one handler and expects
+    counter 0; a second start() on the started instance changes nothing - in particular the counter the
+    running connection has reached (e0) stays; stop() unregisters exactly that handler; a start() after stop()
+    begins a new connection at 0 with a new registration."""
+    d = DeviceManagement(RegTransport(), 7, cemi_received_callback=RecCallback("up"), data_endpoint=("10.0.0.1", 3671))
+    reg, unreg = ghost("registered"), ghost("unregistered")
+    if history == "stop":
+        d.stop()
+        assert reg == [] and unreg == [] and d._callback is None
+        return
+    d.start()
+    assert len(reg) == 1 and d._callback == ("handle", 1) and d._sequence.expected == 0
+    d._sequence.expected = e0  # the connection has been served for a while
+    if history == "start_start":
+        d.start()
+        assert len(reg) == 1 and unreg == [] and d._callback == ("handle", 1)
+        assert d._sequence.expected == e0
+    elif history == "start_stop_start":
+        d.stop()
+        assert unreg == [("handle", 1)] and d._callback is None
+        d.start()
+        assert len(reg) == 2 and d._callback == ("handle", 2) and d._sequence.expected == 0
